@@ -106,9 +106,13 @@ Section Similarity.
     end.
 End Similarity.
 
-(* binary64: cos_sim = numer / (denom_a.sqrt() * denom_b.sqrt());  similarity >= threshold *)
-Definition cos_ge_F (n da db thr : float) : bool :=
-  PrimFloat.leb thr (PrimFloat.div n (PrimFloat.mul (PrimFloat.sqrt da) (PrimFloat.sqrt db))).
+(* the comparison as the code writes it, for any numeric record that has a square root:
+   cos_sim = numer / (denom_a.sqrt() * denom_b.sqrt());  similarity >= threshold.
+   Props/GenSimilarity.v proves this text equal to the definitions regenerated from the Rust source. *)
+Definition cos_ge_num (N : Num) (sqrt : N -> N) (n da db thr : N) : bool :=
+  leb thr (div n (mul (sqrt da) (sqrt db))).
+(* binary64: the instance that runs next to the code (NaN compares false) *)
+Definition cos_ge_F (n da db thr : float) : bool := cos_ge_num FN PrimFloat.sqrt n da db thr.
 
 (* exact rationals: the same comparison over the reals, decided on squares (da, db are sums of squares).
    da * db = 0 is the 0/0 case of the code (NaN: never similar). *)
